@@ -9,6 +9,7 @@ decided on implementation traces by `ML.Mon` (both variants) and kept open as a 
 -/
 import SwimVerif.Model.MapLane
 import SwimVerif.Proofs.ValueLane
+import SwimVerif.Proofs.C03Bridge
 
 set_option linter.unusedVariables false
 namespace SwimVerif.ML
@@ -124,34 +125,66 @@ theorem C03_pending_counts_down (syncs : List SyncQ) (a : Act) :
     (updateSyncs syncs a).map (·.pending) = syncs.map (fun q => q.pending - 1) := by
   cases a <;> simp [updateSyncs, List.map_map, Function.comp_def]
 
-/-! Open: the trace-level interval statement. `ML.Mon` is the decidable predicate (run over implementation traces
-by the check); the statement is that the model's own traces always satisfy it. -/
+/-! ### The trace-level interval statement
 
-def Op.render : Op → String
-  | .update k v => s!"upd {k} {v}"
-  | .remove k => s!"rem {k}"
-  | .clear => "clr"
-  | .sync r => s!"sync {r}"
-  | .write => "write"
-  | .dropFirst n => s!"drop {n}"
-  | .takeFirst n => s!"take {n}"
+`modelTraceOk` (defined in `Proofs/C03Bridge.lean`) runs the monitor `ML.Mon` — the decidable predicate the check runs
+over implementation traces — over the model's own trace: at `synced r`, for a remote that was linked all along and
+for one that held nothing, every key of the replica holds a value (or absence) the lane held between the request and
+that instant; a write that produces nothing finds no request outstanding and the observer's replica equal to the
+lane's map. The proof (`Proofs/C03Queue … C03Trace`) is by the inductive invariant `ML.Inv` linking lane content,
+event queue (with its wrapping epochs), each sync queue's remaining keys and `pending` counter, and the monitor's
+replicas and per-key histories. -/
 
-/-- the monitor accepts the model's trace of these operations -/
-def modelTraceOk : St → Mon → List Op → Bool
-  | _, _, [] => true
-  | s, m, op :: rest =>
-    let x := stepLine s op.render
-    let y := m.step op.render x.2
-    y.2.isNone && modelTraceOk x.1 y.1 rest
+/-- **Snapshot consistency, typed form**: for every sequence of lane operations with fresh sync ids the monitor
+accepts the model's trace (`traceOkT`: the monitor on operations and frames instead of rendered lines).
+The bound `ops.length < 2^64` is what keeps the wrapping epoch arithmetic of `EventQueue` exact. -/
+theorem C03_snapshot_consistent_typed (ops : List Op) (hf : syncIdsFresh [] ops = true) (hl : ops.length < M64) :
+    traceOkT {} {} ops = true :=
+  traceOkT_init ops hf hl
 
-/-- every sync request comes from a remote with no request outstanding (ids never reused) -/
-def syncIdsFresh : List Nat → List Op → Bool
-  | _, [] => true
-  | seen, .sync r :: rest => !seen.contains r && syncIdsFresh (r :: seen) rest
-  | seen, _ :: rest => syncIdsFresh seen rest
+/-- **Snapshot consistency on lines**: the same for `modelTraceOk`, for every trace whose rendered lines parse back
+to what was rendered (`lineProtoOk`, decidable; a statement about the line protocol, not about the lane). -/
+theorem C03_snapshot_consistent_partial (ops : List Op) (hf : syncIdsFresh [] ops = true) (hl : ops.length < M64)
+    (hp : lineProtoOk {} ops = true) : modelTraceOk {} {} ops = true := by
+  rw [modelTraceOk_eq_traceOkT ops {} {} hp]
+  exact traceOkT_init ops hf hl
 
+/-- **The invariant behind it, on every reachable state** (lane and monitor run side by side). -/
+theorem C03_lane_monitor_invariant (ops : List Op) (hf : syncIdsFresh [] ops = true) (hl : ops.length < M64) :
+    ∃ seen U, Inv (jointRun {} {} ops).1 (jointRun {} {} ops).2 seen U :=
+  inv_jointRun ops {} {} [] [] inv_init hf (by simp only [List.length_nil]; omega)
+
+/-- **Convergence of the faithful queue model (C02 with wrapping epochs)**: whenever nothing is queued, an observer
+that applied every event holds exactly the lane's map, and no sync request is outstanding. -/
+theorem C03_quiescent_converged (ops : List Op) (hf : syncIdsFresh [] ops = true) (hl : ops.length < M64)
+    (he : (jointRun {} {} ops).1.wq.eq.events = []) (hs : (jointRun {} {} ops).1.wq.syncs = []) :
+    (jointRun {} {} ops).2.rep = (jointRun {} {} ops).1.content ∧ (jointRun {} {} ops).2.pend = [] := by
+  obtain ⟨seen, U, h⟩ := C03_lane_monitor_invariant ops hf hl
+  have := noData_ok (c := (jointRun {} {} ops).1.content) (w := (jointRun {} {} ops).1.wq) h he hs
+  have hc := h.cur_eq
+  unfold Mon.noDataT at this
+  split at this
+  · cases this
+  · rename_i hpe
+    split at this
+    · cases this
+    · rename_i hrep
+      refine ⟨?_, ?_⟩
+      · rw [← hc]; exact Classical.not_not.mp hrep
+      · cases hpd : (jointRun {} {} ops).2.pend with
+        | nil => rfl
+        | cons p ps => simp [hpd] at hpe
+
+/-- The full statement (no bound on the length, no hypothesis on the line protocol). Not provable as it stands for
+the model: with 2^64 entries queued the epoch of a new entry wraps onto the head's (`EQ.push`: `(head + len) % 2^64`),
+a later update of that key overwrites the head entry and an event is lost — the real `Vec` cannot hold that many
+entries, so this is an artefact of the unbounded lists of the model, not a defect. -/
 def C03_snapshot_consistent_open : Prop :=
   ∀ (ops : List Op), syncIdsFresh [] ops = true → modelTraceOk {} {} ops = true
+
+example : syncIdsFresh [] [.update 1 5, .sync 7, .update 2 6, .remove 1, .write, .write, .write, .write, .write] = true ∧
+    traceOkT {} {} [.update 1 5, .sync 7, .update 2 6, .remove 1, .write, .write, .write, .write, .write] = true := by
+  decide
 
 example : (WQ.pop { syncs := [⟨7, [], 0⟩], nextIsEvent := false }).1 = some (.synced 7) := by decide
 example : (WQ.pop { eq := { events := [.rem 1], emap := [(1, 0)] }, syncs := [⟨7, [], 1⟩], nextIsEvent := false }).1
